@@ -35,6 +35,11 @@ pub tracked struct World {
     pub ghost c_aborted: bool,       // the command's abort flag
     pub ghost finished: Set<int>,    // identities of tasks run_task has reported Completed/Cancelled
     pub ghost known: Set<int>,       // identities of tasks that have entered the command (moved out of its spawn queue)
+    pub ghost join_notified: Set<int>, // identities of tasks whose join handles have been woken (wake_join_handles)
+    // ---- the waker handed to the task polled last by Command::run_task
+    pub ghost p_refs: nat,           // strong count of its Arc<CommandWaker>
+    pub ghost p_woken: bool,         // its `woken` flag
+    pub ghost p_pending: bool,       // that poll returned Pending
 }
 
 /// identity of a value travelling through a channel (uninterpreted: only equality matters)
@@ -48,7 +53,8 @@ pub open spec fn core_part_eq(a: World, b: World) -> bool {
 }
 pub open spec fn cmd_part_eq(a: World, b: World) -> bool {
     a.c_spawn == b.c_spawn && a.c_ready == b.c_ready && a.c_events == b.c_events && a.c_effects == b.c_effects
-    && a.c_aborted == b.c_aborted && a.finished == b.finished && a.known == b.known
+    && a.c_aborted == b.c_aborted && a.finished == b.finished && a.known == b.known && a.join_notified == b.join_notified
+    && a.p_refs == b.p_refs && a.p_woken == b.p_woken && a.p_pending == b.p_pending
 }
 /// what anything that runs user code may do to the core's queues: add work, append outputs
 pub open spec fn core_havoc_min(a: World, b: World) -> bool {
@@ -771,14 +777,92 @@ pub mod command_m {
 //@rule X2.vis * s/\n(\s+)(effects|events|context|ready_queue|spawn_queue|tasks|ready_sender|waker|aborted):/\n\1pub \2:/
 //@end
 
+//@extract id=cmd.CommandWaker file=crux_core/src/command/executor.rs item="struct CommandWaker"
+//@rule X2.vis * s/pub\(crate\)/pub/
+//@end
+
+    impl AtomicBool {
+        #[verifier::external_body]
+        pub fn new(v: bool) -> (r: AtomicBool)
+        { unimplemented!() }
+    }
+    impl<T> Clone for Arc<T> {
+        #[verifier::external_body]
+        fn clone(&self) -> (r: Self)
+        { unimplemented!() }
+    }
+
+    // ---- the waker of one poll (std Arc / Waker / AtomicBool calls of Command::run_task, rule
+    // X6.poll-waker): ASSUMED to behave as reference counting does. The strong count of the
+    // Arc<CommandWaker> is 1 for the local handle, +1 while the Waker made from it lives, +1 for
+    // every clone of that Waker user code has kept.
+    #[verifier::external_body]
+    pub fn new_poll_waker(Tracked(w): Tracked<&mut World>, cw: CommandWaker) -> (r: Arc<CommandWaker>)
+        ensures *final(w) == (World { p_refs: 1, p_woken: false, ..*old(w) }),
+    { unimplemented!() }
+    #[verifier::external_body]
+    pub fn waker_of(Tracked(w): Tracked<&mut World>, a: &Arc<CommandWaker>) -> (r: Waker)
+        ensures *final(w) == (World { p_refs: old(w).p_refs + 1, ..*old(w) }),
+    { unimplemented!() }
+    #[verifier::external_body]
+    pub fn drop_waker(Tracked(w): Tracked<&mut World>, waker: Waker)
+        ensures *final(w) == (World { p_refs: (old(w).p_refs - 1) as nat, ..*old(w) }),
+    { unimplemented!() }
+    #[verifier::external_body]
+    pub fn poll_waker_woken(Tracked(w): Tracked<&mut World>, a: &Arc<CommandWaker>) -> (r: bool)
+        ensures r == old(w).p_woken, *final(w) == *old(w),
+    { unimplemented!() }
+    #[verifier::external_body]
+    pub fn poll_waker_refs(Tracked(w): Tracked<&mut World>, a: &Arc<CommandWaker>) -> (r: usize)
+        ensures r as nat == old(w).p_refs, *final(w) == *old(w),
+    { unimplemented!() }
+    // ASSUMED (havoc): polling the task's future (Pin::as_mut + Future::poll) runs user code: it
+    // may spawn, wake, emit (append), set abort flags, wake this poll's waker and keep clones of
+    // it (it cannot drop the two handles run_task holds). It changes the future's state, not
+    // which task this is.
+    #[verifier::external_body]
+    pub fn poll_task(Tracked(w): Tracked<&mut World>, task: &mut Task, cx: &mut Context<'_>) -> (r: Poll<()>)
+        ensures
+            val_id(*final(task)) == val_id(*old(task)),
+            cmd_outputs_appended(*old(w), *final(w)),
+            old(w).c_aborted ==> final(w).c_aborted,
+            final(w).known == old(w).known, final(w).finished == old(w).finished, final(w).join_notified == old(w).join_notified,
+            final(w).p_refs >= old(w).p_refs,
+            final(w).p_pending == (r is Pending),
+    { unimplemented!() }
+    /// ghost bookkeeping of run_task's verdict (rule X1.ghost-verdict): returns its argument
+    pub fn verdict(Tracked(w): Tracked<&mut World>, task: &Task, r: TaskState) -> (out: TaskState)
+        ensures
+            out == r,
+            (r is Completed || r is Cancelled) ==> *final(w) == (World { finished: old(w).finished.insert(val_id(*task)), ..*old(w) }),
+            !(r is Completed || r is Cancelled) ==> *final(w) == *old(w),
+    {
+        proof {
+            if r is Completed || r is Cancelled {
+                w.finished = w.finished.insert(val_id(*task));
+            }
+        }
+        r
+    }
+
     impl Task {
+//@extract id=Task::is_aborted file=crux_core/src/command/executor.rs within="impl Task" item="fn is_aborted" props=C01+C13
+//@expect pub(crate) fn is_aborted(&self) -> bool
+//@sig pub fn is_aborted(&self, Tracked(w): Tracked<&mut World>) -> (r: bool)
+//@contract
+            ensures
+                *final(w) == *old(w) || (self.aborted.flag() is CommandAborted), // the task's own flag, not the command's
+                self.aborted.flag() is CommandAborted ==> *final(w) == *old(w),
+//@rule X6.world * s/\.load\(/.load(Tracked(w), /
+//@end
+
         // ASSUMED (havoc): waking join handles wakes other tasks, which re-queues their ids.
         // (body: a `for` over crossbeam's try_iter calling Waker::wake - user wakers)
         #[verifier::external_body]
         pub fn wake_join_handles(&self, Tracked(w): Tracked<&mut World>)
             ensures
                 final(w).c_ready >= old(w).c_ready,
-                *final(w) == (World { c_ready: final(w).c_ready, ..*old(w) }),
+                *final(w) == (World { c_ready: final(w).c_ready, join_notified: old(w).join_notified.insert(val_id(*self)), ..*old(w) }),
         { unimplemented!() }
     }
     // `drop(task)` is the top-level std::mem::drop model: the task's future and everything it
@@ -789,6 +873,11 @@ pub mod command_m {
     pub open spec fn no_finished_task_held<Effect, Event>(c: Command<Effect, Event>, w: World) -> bool {
         &&& forall|k: usize| #[trigger] c.tasks@.dom().contains(k) ==> !w.finished.contains(val_id(c.tasks@[k])) && w.known.contains(val_id(c.tasks@[k]))
         &&& forall|k1: usize, k2: usize| #[trigger] c.tasks@.dom().contains(k1) && #[trigger] c.tasks@.dom().contains(k2) && k1 != k2 ==> val_id(c.tasks@[k1]) != val_id(c.tasks@[k2])
+    }
+    /// every task reported finished or cancelled has had its join handles woken (so that a task
+    /// awaiting it becomes runnable again)
+    pub open spec fn joiners_notified(w: World) -> bool {
+        w.finished.subset_of(w.join_notified)
     }
     pub open spec fn tasks_kept(a: Map<usize, Task>, b: Map<usize, Task>) -> bool {
         forall|k: usize| #[trigger] a.dom().contains(k) ==> b.dom().contains(k) && b[k] == a[k]
@@ -818,26 +907,37 @@ pub mod command_m {
             && self.ready_sender.role() is CReady && self.aborted.flag() is CommandAborted
         }
 
-        // ASSUMED (havoc): polling one task runs user code: it may spawn, wake, emit (append) and
-        // set abort flags. It does not add or remove slab entries and does not change which task
-        // an entry is. Missing iff the slot is vacant. Completed/Cancelled are the two verdicts
-        // after which the task can never run again.
-        #[verifier::external_body]
-        pub fn run_task(&mut self, Tracked(w): Tracked<&mut World>, task_id: TaskId) -> (r: TaskState)
+//@extract id=Command::run_task file=crux_core/src/command/executor.rs within="impl<Effect, Event> Command<Effect, Event>" item="fn run_task" props=C01+C13
+//@expect pub(crate) fn run_task(&mut self, task_id: TaskId) -> TaskState
+//@sig pub fn run_task(&mut self, Tracked(w): Tracked<&mut World>, task_id: TaskId) -> (r: TaskState)
+//@contract
             requires
                 old(self).wf(),
             ensures
                 final(self).wf(),
-                final(self).tasks@.dom() == old(self).tasks@.dom(),
-                forall|k: usize| #[trigger] old(self).tasks@.dom().contains(k) ==> val_id(final(self).tasks@[k]) == val_id(old(self).tasks@[k]),
+                final(self).tasks@.dom() =~= old(self).tasks@.dom(), // [C01+C13/command-run_task/adds-and-removes-no-task]
+                forall|k: usize| #[trigger] old(self).tasks@.dom().contains(k) ==> val_id(final(self).tasks@[k]) == val_id(old(self).tasks@[k]), // [C01+C13/command-run_task/every-slot-still-holds-the-same-task]
                 final(w).known == old(w).known,
-                r is Missing <==> !old(self).tasks@.dom().contains(task_id.0),
-                r is Missing ==> *final(w) == *old(w),
+                r is Missing <==> !old(self).tasks@.dom().contains(task_id.0), // [C01/command-run_task/missing-iff-the-slot-is-vacant]
+                r is Missing ==> *final(w) == *old(w), // [C01/command-run_task/a-vacant-slot-changes-nothing]
                 (r is Completed || r is Cancelled) ==> final(w).finished == old(w).finished.insert(val_id(old(self).tasks@[task_id.0])),
                 (r is Suspended || r is Missing) ==> final(w).finished == old(w).finished,
-                cmd_outputs_appended(*old(w), *final(w)),
+                r is Cancelled ==> final(w).p_pending && !final(w).p_woken && final(w).p_refs < 2, // [C13/command-run_task/a-task-is-discarded-as-cancelled-only-when-nothing-can-wake-it-again]
+                r is Suspended ==> final(w).p_pending && (final(w).p_woken || final(w).p_refs >= 2), // [C13/command-run_task/a-pending-task-that-nothing-can-wake-again-is-not-kept]
+                cmd_outputs_appended(*old(w), *final(w)), // [C01/command-run_task/outputs-only-appended]
                 old(w).c_aborted ==> final(w).c_aborted,
-        { unimplemented!() }
+                final(w).join_notified == old(w).join_notified,
+//@rule X6.world * s/task\.is_aborted\(\)/task.is_aborted(Tracked(w))/
+//@rule X6.poll-waker 1 s/Arc::new\(CommandWaker \{/new_poll_waker(Tracked(w), CommandWaker {/
+//@rule X6.poll-waker 1 s/arc_waker\.clone\(\)\.into\(\)/waker_of(Tracked(w), &arc_waker)/
+//@rule X6.poll-waker 1 s/task\.future\.as_mut\(\)\.poll\(context\)/poll_task(Tracked(w), task, context)/
+//@rule X6.poll-waker 1 s/\bdrop\(waker\);/drop_waker(Tracked(w), waker);/
+//@rule X6.poll-waker 1 s/arc_waker\.woken\.load\(Ordering::Acquire\)/poll_waker_woken(Tracked(w), &arc_waker)/
+//@rule X6.poll-waker 1 s/Arc::strong_count\(&arc_waker\)/poll_waker_refs(Tracked(w), &arc_waker)/
+//@rule X14.enum-eq * s/\bresult == TaskState::(\w+)/matches!(result, TaskState::\1)/
+//@rule X1.ghost-verdict * s/return TaskState::(Completed|Cancelled);/return verdict(Tracked(w), task, TaskState::\1);/
+//@rule X1.ghost-verdict 1 s/\n(\s+)result\n(\s+)\}$/\n\1verdict(Tracked(w), task, result)\n\2}/
+//@end
 
 //@extract id=Command::was_aborted file=crux_core/src/command/executor.rs within="impl<Effect, Event> Command<Effect, Event>" item="fn was_aborted" props=C01+C13
 //@expect pub fn was_aborted(&self) -> bool
@@ -893,9 +993,11 @@ pub mod command_m {
             requires
                 old(self).wf(),
                 no_finished_task_held(*old(self), *old(w)),
+                joiners_notified(*old(w)),
             ensures
                 final(self).wf(),
                 no_finished_task_held(*final(self), *final(w)), // [C13/run_until_settled/a-finished-or-cancelled-task-is-removed-and-dropped]
+                joiners_notified(*final(w)), // [C01/run_until_settled/whoever-awaits-a-finished-or-cancelled-task-has-been-woken]
                 old(w).c_aborted ==> final(self).tasks@ == Map::<usize, Task>::empty() && *final(w) == *old(w), // [C13/run_until_settled/an-aborted-command-drops-all-its-tasks]
                 !old(w).c_aborted ==> final(w).c_spawn == 0 && final(w).c_ready == 0, // [C01/run_until_settled/no-runnable-work-left-behind]
                 cmd_outputs_appended(*old(w), *final(w)), // [C01/run_until_settled/outputs-only-appended]
@@ -914,16 +1016,18 @@ pub mod command_m {
                     self.wf(),
                     !old(w).c_aborted,
                     no_finished_task_held(*self, *w), // [C13/run_until_settled/loop/no-finished-task-held-between-passes]
+                    joiners_notified(*w),
                     cmd_outputs_appended(*old(w), *w),
                     old(w).c_spawn == 0 && old(w).c_ready == 0 ==> *w == *old(w) && self.tasks@ == old(self).tasks@,
                 ensures
                     w.c_spawn == 0 && w.c_ready == 0,
-                    self.wf(), no_finished_task_held(*self, *w), cmd_outputs_appended(*old(w), *w),
+                    self.wf(), no_finished_task_held(*self, *w), cmd_outputs_appended(*old(w), *w), joiners_notified(*w),
                     old(w).c_spawn == 0 && old(w).c_ready == 0 ==> *w == *old(w) && self.tasks@ == old(self).tasks@,
 //@loop 2
                     invariant
                         self.wf(),
                         no_finished_task_held(*self, *w), // [C13/run_until_settled/inner-loop/a-task-reported-finished-or-cancelled-is-removed-before-the-next-one-runs]
+                        joiners_notified(*w), // [C01/run_until_settled/inner-loop/join-handles-of-a-finished-or-cancelled-task-are-woken-before-the-next-task-runs]
                         cmd_outputs_appended(*old(w), *w),
 //@end
 
@@ -934,9 +1038,11 @@ pub mod command_m {
             requires
                 old(self).wf(),
                 no_finished_task_held(*old(self), *old(w)),
+                joiners_notified(*old(w)),
             ensures
                 final(self).wf(),
                 no_finished_task_held(*final(self), *final(w)),
+                joiners_notified(*final(w)),
                 // queued events first, exactly one item per poll, nothing lost:
                 (r matches Poll::Ready(Some(CommandOutput::Event(e))) ==> old(w).c_events.is_prefix_of(seq![val_id(e)] + final(w).c_events) && old(w).c_effects.is_prefix_of(final(w).c_effects)), // [C01/poll_next/event-yielded-is-the-head-exactly-one-item-removed]
                 (r matches Poll::Ready(Some(CommandOutput::Effect(f))) ==> final(w).c_events.len() == 0 && old(w).c_events.len() == 0 && old(w).c_effects.is_prefix_of(seq![val_id(f)] + final(w).c_effects)), // [C01/poll_next/effect-yielded-only-when-no-event-waits-head-exactly-one-item-removed]
@@ -957,9 +1063,11 @@ pub mod command_m {
             requires
                 old(self).wf(),
                 no_finished_task_held(*old(self), *old(w)),
+                joiners_notified(*old(w)),
             ensures
                 final(self).wf(),
                 no_finished_task_held(*final(self), *final(w)),
+                joiners_notified(*final(w)),
                 r <==> (final(w).c_effects.len() == 0 && final(w).c_events.len() == 0 && final(self).tasks@.dom() =~= Set::<usize>::empty()), // [C01+C13/is_done/done-iff-no-output-pending-and-no-task-left]
                 !old(w).c_aborted ==> final(w).c_spawn == 0 && final(w).c_ready == 0, // [C01/is_done/settles-first]
                 cmd_outputs_appended(*old(w), *final(w)),
